@@ -404,6 +404,19 @@ func run(r *Rng, tier string, n int) {
 			func() dns.EDNS0 { return &dns.EDNS0_DHU{Code: dns.EDNS0DHU, AlgCode: r.Bytes(1 + r.Intn(5))} },
 			func() dns.EDNS0 { return &dns.EDNS0_N3U{Code: dns.EDNS0N3U, AlgCode: r.Bytes(1 + r.Intn(5))} },
 			func() dns.EDNS0 { return &dns.EDNS0_EXPIRE{Code: dns.EDNS0EXPIRE, Expire: uint32(r.Next())} },
+			func() dns.EDNS0 { return &dns.EDNS0_EXPIRE{Code: dns.EDNS0EXPIRE, Expire: 0} }, // the value zero, not the empty query form
+			func() dns.EDNS0 { return &dns.EDNS0_EXPIRE{Code: dns.EDNS0EXPIRE, Expire: 1<<32 - 1} },
+			func() dns.EDNS0 { return &dns.EDNS0_UL{Code: dns.EDNS0UL, Lease: 0} },
+			func() dns.EDNS0 { return &dns.EDNS0_UL{Code: dns.EDNS0UL, Lease: 1<<32 - 1, KeyLease: 1<<32 - 1} },
+			func() dns.EDNS0 { return &dns.EDNS0_LLQ{Code: dns.EDNS0LLQ} },
+			func() dns.EDNS0 { return &dns.EDNS0_TCP_KEEPALIVE{Code: dns.EDNS0TCPKEEPALIVE, Timeout: 65535} },
+			func() dns.EDNS0 { return &dns.EDNS0_EDE{InfoCode: 0} },
+			func() dns.EDNS0 {
+				return &dns.EDNS0_ZONEVERSION{Code: dns.EDNS0ZONEVERSION, LabelCount: 0, Type: 0, Version: ""}
+			},
+			func() dns.EDNS0 { return &dns.EDNS0_NSID{Code: dns.EDNS0NSID, Nsid: ""} },
+			func() dns.EDNS0 { return &dns.EDNS0_PADDING{Padding: []byte{}} },
+			func() dns.EDNS0 { return &dns.EDNS0_LOCAL{Code: 65001, Data: []byte{}} },
 			func() dns.EDNS0 { return &dns.EDNS0_EXPIRE{Code: dns.EDNS0EXPIRE, Empty: true} },
 			func() dns.EDNS0 {
 				return &dns.EDNS0_TCP_KEEPALIVE{Code: dns.EDNS0TCPKEEPALIVE, Timeout: uint16(1 + r.Intn(65535))}
@@ -431,10 +444,95 @@ func run(r *Rng, tier string, n int) {
 					st["edns_option_does_not_pack"]++
 					continue
 				}
+				// the option's octets as its RFC prescribes them, written down independently of pack()
+				if k == 0 {
+					if want, ok := wantOptionData(o.Option[0]); ok {
+						buf := make([]byte, 400)
+						off, _ := dns.PackRR(dns.Copy(o), buf, 0, nil, false)
+						if off >= 15 && !bytes.Equal(buf[15:off], want) {
+							Viol("C01/OPT/option-layout", "EDNS0 option "+Itoa(int(o.Option[0].Option()))+" packs its value as "+Hx(buf[15:off])+", its RFC prescribes "+Hx(want), inRR{"OPT", o.String(), Hx(buf[:off]), ""})
+						}
+						st["edns_layouts_checked"]++
+					}
+				}
 				checkRR(o, GenInfo{WellFormed: true, Note: "edns-kind"}, k == 0)
 				st["edns_kinds_checked"]++
 			}
 		}
+	}
+	// (1f) a Msg value reused for successive Unpack calls equals a fresh one (header bits, counts, sections, RCODE)
+	{
+		mkw := func(f func(m *dns.Msg)) []byte {
+			m := new(dns.Msg)
+			m.SetQuestion("reuse.example.", dns.TypeA)
+			m.Response = true
+			f(m)
+			w, err := m.Pack()
+			if err != nil {
+				return nil
+			}
+			return w
+		}
+		a := func(n string) dns.RR {
+			return &dns.A{Hdr: dns.RR_Header{Name: n, Rrtype: dns.TypeA, Class: 1, Ttl: 5}, A: []byte{192, 0, 2, 1}}
+		}
+		ws := [][]byte{
+			mkw(func(m *dns.Msg) { m.Answer = []dns.RR{a("reuse.example.")} }),
+			mkw(func(m *dns.Msg) {
+				m.Ns = []dns.RR{a("ns.example.")}
+				m.Extra = []dns.RR{a("x.example.")}
+				m.SetEdns0(1232, true)
+				m.Rcode = dns.RcodeBadVers
+			}),
+			mkw(func(m *dns.Msg) { m.Question = nil }),
+			mkw(func(m *dns.Msg) { m.Extra = []dns.RR{a("e.example.")} }),
+			mkw(func(m *dns.Msg) { m.Ns = []dns.RR{a("n.example.")}; m.Rcode = 3; m.Truncated = true }),
+		}
+		for i, w1 := range ws {
+			for j, w2 := range ws {
+				if w1 == nil || w2 == nil {
+					continue
+				}
+				var reused, fresh dns.Msg
+				if reused.Unpack(w1) != nil || reused.Unpack(w2) != nil || fresh.Unpack(w2) != nil {
+					continue
+				}
+				st["reused_msg_checked"]++
+				if ok, got := msgEq(&fresh, &reused); !ok {
+					Viol("C01/msg/reused-msg-differs", "Unpack into a Msg that already held message "+Itoa(i)+" gives a different message than Unpack of message "+Itoa(j)+" into a fresh Msg", map[string]string{"first": Hx(w1), "wire": Hx(w2), "got": got})
+				}
+			}
+		}
+	}
+	// (1g) two live records of one registered private type in one message keep their own RDATA
+	{
+		const code = 65281
+		dns.PrivateHandle("VSERIALT", code, func() dns.PrivateRdata { return new(c01Priv) })
+		mk := func(owner string, b []byte) dns.RR {
+			rr := dns.TypeToRR[code]().(*dns.PrivateRR)
+			rr.Hdr = dns.RR_Header{Name: owner, Rrtype: code, Class: 1, Ttl: 5}
+			rr.Data.(*c01Priv).b = b
+			return rr
+		}
+		m := new(dns.Msg)
+		m.SetQuestion("a.example.", code)
+		m.Answer = []dns.RR{mk("a.example.", []byte{0, 0, 0, 1}), mk("b.example.", []byte{0, 0, 0, 2}), mk("c.example.", []byte{9})}
+		checkMsg(m, true, false)
+		if w, err := m.Pack(); err == nil {
+			var u dns.Msg
+			if u.Unpack(w) == nil && len(u.Answer) == 3 {
+				for i, want := range [][]byte{{0, 0, 0, 1}, {0, 0, 0, 2}, {9}} {
+					if p, ok := u.Answer[i].(*dns.PrivateRR); !ok || !bytes.Equal(p.Data.(*c01Priv).b, want) {
+						Viol("C01/PrivateRR/records-share-rdata", "record "+Itoa(i)+" of three private records in one message does not carry its own RDATA after Unpack", map[string]string{"wire": Hx(w)})
+					}
+				}
+				if w2, err := u.Pack(); err != nil || !bytes.Equal(w, w2) {
+					Viol("C01/PrivateRR/records-share-rdata", "Pack(Unpack(octets)) != octets for a message with three private records", map[string]string{"wire": Hx(w)})
+				}
+			}
+		}
+		st["private_multi_checked"]++
+		dns.PrivateHandleRemove(code)
 	}
 	// (2) character-string and octet fields with backslashes (escape handling on both sides)
 	for i := 0; i < 40; i++ {
@@ -545,4 +643,73 @@ func run(r *Rng, tier string, n int) {
 		}
 	}
 	Stat(st)
+}
+
+type c01Priv struct{ b []byte }
+
+func (d *c01Priv) String() string         { return Hx(d.b) }
+func (d *c01Priv) Parse(s []string) error { return nil }
+func (d *c01Priv) Pack(buf []byte) (int, error) {
+	if len(buf) < len(d.b) {
+		return 0, dns.ErrBuf
+	}
+	return copy(buf, d.b), nil
+}
+func (d *c01Priv) Unpack(buf []byte) (int, error) {
+	d.b = append([]byte(nil), buf...)
+	return len(buf), nil
+}
+func (d *c01Priv) Copy(dst dns.PrivateRdata) error {
+	dst.(*c01Priv).b = append([]byte(nil), d.b...)
+	return nil
+}
+func (d *c01Priv) Len() int { return len(d.b) }
+
+// wantOptionData: the value octets of an EDNS0 option as the RFCs lay them out (RFC 7314 EXPIRE, RFC 7828
+// keepalive, RFC 8914 EDE, RFC 7830 padding, RFC 6975 DAU/DHU/N3U, Update Lease, LLQ), written independently
+// of the library's pack methods.
+func wantOptionData(o dns.EDNS0) ([]byte, bool) {
+	be := func(v uint64, n int) []byte {
+		b := make([]byte, n)
+		for i := n - 1; i >= 0; i-- {
+			b[i] = byte(v)
+			v >>= 8
+		}
+		return b
+	}
+	switch x := o.(type) {
+	case *dns.EDNS0_EXPIRE:
+		if x.Empty {
+			return []byte{}, true
+		}
+		return be(uint64(x.Expire), 4), true
+	case *dns.EDNS0_TCP_KEEPALIVE:
+		if x.Timeout == 0 {
+			return []byte{}, true
+		}
+		return be(uint64(x.Timeout), 2), true
+	case *dns.EDNS0_UL:
+		if x.KeyLease == 0 {
+			return be(uint64(x.Lease), 4), true
+		}
+		return append(be(uint64(x.Lease), 4), be(uint64(x.KeyLease), 4)...), true
+	case *dns.EDNS0_LLQ:
+		b := append(be(uint64(x.Version), 2), be(uint64(x.Opcode), 2)...)
+		b = append(b, be(uint64(x.Error), 2)...)
+		b = append(b, be(x.Id, 8)...)
+		return append(b, be(uint64(x.LeaseLife), 4)...), true
+	case *dns.EDNS0_EDE:
+		return append(be(uint64(x.InfoCode), 2), []byte(x.ExtraText)...), true
+	case *dns.EDNS0_PADDING:
+		return append([]byte{}, x.Padding...), true
+	case *dns.EDNS0_DAU:
+		return append([]byte{}, x.AlgCode...), true
+	case *dns.EDNS0_DHU:
+		return append([]byte{}, x.AlgCode...), true
+	case *dns.EDNS0_N3U:
+		return append([]byte{}, x.AlgCode...), true
+	case *dns.EDNS0_LOCAL:
+		return append([]byte{}, x.Data...), true
+	}
+	return nil, false
 }
